@@ -93,7 +93,8 @@ def key_of(clause: str, it: dict, row: dict) -> str:
 def canary(items: list[dict], workers: int) -> None:
     """The judge must reject a corrupted record: flip what was observed in every row of three items."""
     bad = []
-    for it in (items[0], items[len(items) // 2], items[-1]):
+    obs = [it for it in items if not it["lvl"].startswith("restore")]   # delivery is not observable in the restore path
+    for it in (obs[0], obs[len(obs) // 2], obs[-1]):
         rows = [dict(r, delivered=not r["delivered"], written=not r["written"], refused=not r["refused"]) for r in it["rows"]]
         bad.append({"cfg": it["cfg"], "lvl": it["lvl"], "rows": rows})
     r = judge(bad, workers, "clauses")
